@@ -240,11 +240,21 @@ func issuerNode(c *ssoCase) *spsim.Node {
 	return c.Node.Find("Issuer")
 }
 
+// justPast returns offsets from a millisecond to years: an instant that lies in the past when it is
+// generated is still in the past when the request is served.
+func justPast(rng *rand.Rand) time.Duration {
+	if rng.Intn(3) == 0 {
+		return -[]time.Duration{time.Millisecond, 20 * time.Millisecond, 200 * time.Millisecond, 600 * time.Millisecond, 999 * time.Millisecond, 1500 * time.Millisecond}[rng.Intn(6)]
+	}
+	return farPast(rng)
+}
+
 func farPast(rng *rand.Rand) time.Duration {
-	return -[]time.Duration{2 * time.Second, 10 * time.Second, time.Minute, time.Hour, 24 * time.Hour, 400 * 24 * time.Hour, 10 * 365 * 24 * time.Hour}[rng.Intn(7)]
+	// up to centuries (time.Duration itself ends at ~292 years)
+	return -[]time.Duration{2 * time.Second, 10 * time.Second, time.Minute, time.Hour, 24 * time.Hour, 400 * 24 * time.Hour, 10 * 365 * 24 * time.Hour, 120 * 365 * 24 * time.Hour, 290 * 365 * 24 * time.Hour}[rng.Intn(9)]
 }
 func farFuture(rng *rand.Rand) time.Duration {
-	return []time.Duration{5 * time.Second, 30 * time.Second, time.Minute, time.Hour, 24 * time.Hour, 400 * 24 * time.Hour, 10 * 365 * 24 * time.Hour}[rng.Intn(7)]
+	return []time.Duration{5 * time.Second, 30 * time.Second, time.Minute, time.Hour, 24 * time.Hour, 400 * 24 * time.Hour, 10 * 365 * 24 * time.Hour, 120 * 365 * 24 * time.Hour, 290 * 365 * 24 * time.Hour}[rng.Intn(9)]
 }
 
 var badTimestamps = []string{"yesterday", "2024-13-45T99:99:99Z", "1700000000", "2030-01-01", "2030-01-01T00:00:00", "2030-01-01T00:00:00+01:00", "2030-01-01 00:00:00Z", "01/02/2030", " ", "2030-01-01T00:00:00ZZ", "20300101T000000Z"}
@@ -315,9 +325,17 @@ var c06Deviations = []deviation{
 		setAttr(c, "Destination", []string{"https://hostb.example/saml/SSO", "https://idp.example/saml/SSO", "https://hosta.example.evil.example/saml/SSO", "https://hosta.example:444/saml/SSO", "http://hosta.example/saml/SSO"}[rng.Intn(5)])
 	}},
 	{"conditions_expired", func(rng *rand.Rand, c *ssoCase) {
-		addConditions(rng, c, "", tsFrac(time.Now().Add(farPast(rng)), rng.Intn(7)))
+		if rng.Intn(6) == 0 { // centuries ago
+			addConditions(rng, c, "", []string{"1600-01-01T00:00:00Z", "0001-01-01T00:00:00Z", "1677-09-21T00:12:43Z", "1000-06-15T12:00:00.5Z", "1969-12-31T23:59:59Z"}[rng.Intn(5)])
+			return
+		}
+		addConditions(rng, c, "", tsFrac(time.Now().Add(justPast(rng)), 3+rng.Intn(7)))
 	}},
 	{"conditions_not_yet_valid", func(rng *rand.Rand, c *ssoCase) {
+		if rng.Intn(6) == 0 { // centuries ahead
+			addConditions(rng, c, []string{"2300-01-01T00:00:00Z", "9999-12-31T23:59:59Z", "2262-04-11T23:47:17Z", "5000-01-01T00:00:00.123Z"}[rng.Intn(4)], "")
+			return
+		}
 		addConditions(rng, c, tsFrac(time.Now().Add(farFuture(rng)), rng.Intn(7)), "")
 	}},
 	{"conditions_notbefore_unparseable", func(rng *rand.Rand, c *ssoCase) {
